@@ -26,7 +26,9 @@ def _mag(draw, lo=-6.0, hi=6.0):
 def strat_cop(draw):
     t = draw(st.sampled_from(["clayton", "clayton", "clayton", "independent", "dependent"]))
     if t == "clayton":
-        return {"type": t, "theta": draw(_f(0.2, 5.0)), "eta": draw(st.one_of(st.sampled_from([0.0, 1.0]), _f(0.0, 1.0)))}
+        # (theta is also written as a python integer: the repository's scripts use theta=10)
+        theta = draw(st.sampled_from([1, 2, 3, 10])) if draw(st.integers(0, 7)) == 0 else draw(_f(0.2, 5.0))
+        return {"type": t, "theta": theta, "eta": draw(st.one_of(st.sampled_from([0.0, 1.0]), _f(0.0, 1.0)))}
     return {"type": t}
 
 
@@ -36,12 +38,17 @@ def strat_volume(draw, tier):
     cop = draw(strat_cop())
     a, b = [], []
     for _ in range(d):
-        kind = draw(st.sampled_from(["pos", "neg", "straddle", "to-inf", "from-zero", "to-zero"]))
+        kind = draw(st.sampled_from(["pos", "neg", "straddle", "to-inf", "from-zero", "to-zero", "pos", "neg",
+                                     "collapsed", "thin"]))
         x, y = sorted([_mag(draw), _mag(draw)])
         if x == y:
             y = 2 * x
+        sgn = draw(st.sampled_from([-1.0, 1.0]))
+        thin = sorted([sgn * x, sgn * x * (1.0 + draw(st.sampled_from([1e-6, 1e-9, 1e-12])))])
         lo, hi = {"pos": (x, y), "neg": (-y, -x), "straddle": (-x, y), "to-inf": (x, INF),
-                  "from-zero": (0.0, y), "to-zero": (-x, 0.0)}[kind]
+                  "from-zero": (0.0, y), "to-zero": (-x, 0.0),
+                  # a side of zero width (a_i = b_i is a legitimate a <= b) and sides that are thin next to where they lie
+                  "collapsed": (sgn * x, sgn * x), "thin": (thin[0], thin[1])}[kind]
         a.append(lo)
         b.append(hi)
     # F is finite unless *all* its arguments are infinite: at most one infinite side, so that neither the rectangle
@@ -52,6 +59,8 @@ def strat_volume(draw, tier):
     sub = draw(st.sampled_from([None] + [list(c) for c in itertools.combinations(range(d), 2)])) if d == 3 else None
     return {"d": d, "copula": cop, "a": a, "b": b, "sub": sub,
             "u": [draw(st.sampled_from([-1, 1])) * _mag(draw) for _ in range(d)],
+            # an argument vector of integer type (tail-integral levels written as integers)
+            "int_u": [draw(st.sampled_from([-1, 1])) * draw(st.integers(1, 40)) for _ in range(d)],
             "zero_at": draw(st.integers(0, d - 1))}
 
 
@@ -76,6 +85,18 @@ def body_volume(case):
     vol = float(volume(f, a, b))
     if vol < -1e-12 * scale - 1e-300:
         out.append(Violation(f"{tag}/negative-volume", f"volume {vol!r} (corner scale {scale!r}); {detail}"))
+    # the volume operator itself: alternating sum over the corners (sign = parity of the number of lower end points)
+    ref = sum((-1.0) ** (d - sum(ps)) * c for ps, c in zip(itertools.product([0, 1], repeat=d), corners))
+    if abs(vol - ref) > 1e-12 * scale + 1e-300:
+        out.append(Violation(f"{tag}/volume-is-not-the-alternating-sum-over-the-corners",
+                             f"volume {vol!r}, alternating sum {ref!r} (corner scale {scale!r}); {detail}"))
+    # the value does not depend on the type the argument vector is written in
+    if case.get("int_u"):
+        vi = float(F(np.array(case["int_u"], dtype=np.int64)))
+        vf = f(case["int_u"])
+        if not (vi == vf or abs(vi - vf) <= 1e-14 * abs(vf)):
+            out.append(Violation(f"{tag}/value-depends-on-the-integer-type-of-the-arguments",
+                                 f"F({case['int_u']}) = {vi!r} with integer entries, {vf!r} with float entries; {detail}"))
     # grounded
     u = np.array(case["u"], dtype=float)
     u0 = u.copy()
@@ -108,6 +129,8 @@ def classify_volume(case):
     labels = [case["copula"]["type"], f"d={case['d']}"]
     if mixed:
         labels.append("mixed-orthants")
+    if any(x == y for x, y in zip(case["a"], case["b"])):
+        labels.append("collapsed-side")
     if inf:
         labels.append("infinite-side")
     eta_end = case["copula"].get("eta") in (0.0, 1.0)
@@ -119,8 +142,13 @@ def classify_volume(case):
 # ------------------------------------------------------------------------------------ Clayton conditional distribution
 @st.composite
 def strat_cond(draw, tier):
-    return {"theta": draw(_f(0.2, 5.0)), "eta": draw(st.one_of(st.sampled_from([0.0, 1.0]), _f(0.0, 1.0))),
-            "eps": draw(st.sampled_from([-1, 1])) * _mag(draw, -3, 3),
+    # (strong dependence: theta up to 150 for one case in six)
+    theta = draw(_f(0.2, 5.0)) if draw(st.integers(0, 5)) else draw(_f(5.0, 150.0))
+    eps = draw(st.sampled_from([-1, 1])) * _mag(draw, -3, 3 if theta <= 5 else 4.5)
+    if draw(st.integers(0, 5)) == 0:  # the conditioning level written as a python integer
+        eps = draw(st.sampled_from([-1, 1])) * draw(st.integers(1, 30))
+    return {"theta": theta, "eta": draw(st.one_of(st.sampled_from([0.0, 1.0]), _f(0.0, 1.0))),
+            "eps": eps,
             # (0.0 itself is a legitimate argument: F is right-continuous there, between its one-sided limits)
             "xs": sorted({draw(st.sampled_from([-1, 1])) * _mag(draw, -5, 5) for _ in range(8)} |
                          ({0.0} if draw(st.booleans()) else set())),
@@ -171,7 +199,14 @@ def body_cond(case):
     for p in case["ps"]:
         y = float(np.atleast_1d(cop.inverse_conditional_distribution(np.array(eps), np.array([p])))[0])
         if not math.isfinite(y) or y == 0:
-            continue  # p lies in the jump of F at 0 (eta in {0,1} or inside the gap): no pre-image
+            # no pre-image only where p lies in the jump of F at 0 (eta in {0,1} or inside the gap)
+            f_minus = float(cop.conditional_distribution(eps, np.array([-1e-300]))[0])
+            f_plus = float(cop.conditional_distribution(eps, np.array([1e-300]))[0])
+            if not (min(f_minus, f_plus) - 1e-9 <= p <= max(f_minus, f_plus) + 1e-9):
+                out.append(Violation("C11/clayton/inverse-of-conditional-distribution/no-finite-pre-image-outside-the-jump",
+                                     f"p={p} inverse={y!r}, jump of F at zero [{f_minus!r}, {f_plus!r}]; {detail}"))
+                break
+            continue
         v = float(cop.conditional_distribution(eps, np.array([y]))[0])
         if abs(v - p) > 1e-9:
             # the gap of F at zero: F(0-) and F(0+) differ; p inside the gap has no pre-image
@@ -185,7 +220,7 @@ def body_cond(case):
 
 
 def classify_cond(case):
-    labels = ["eps>0" if case["eps"] > 0 else "eps<0"]
+    labels = ["eps>0" if case["eps"] > 0 else "eps<0", "theta<=5" if case["theta"] <= 5 else "theta>5"]
     if case["eta"] in (0.0, 1.0):
         labels.append("eta-endpoint")
     return labels, True
